@@ -605,7 +605,13 @@ func (c *registration) setDelegate(m metric.Meter) {
 	reg, err := m.RegisterCallback(unwrapCallback(c.function), unwrapInstruments(c.instruments)...)
 	if err != nil {
 		GetErrorHandler().Handle(err)
-		return
+		if reg == nil {
+			return
+		}
+		// The delegate may return a live registration together with an
+		// error (e.g. some of the instruments were rejected). Keep it:
+		// otherwise the callback stays registered and Unregister cannot
+		// remove it.
 	}
 
 	c.unreg = reg.Unregister
